@@ -36,7 +36,7 @@ int main(void) {
   /* known finding: encodings that still carry a continuation bit in the byte holding bit 63 are flagged Overflow */
   { int q = 0; for (int k = 0; k < 2; k++) { int i = 0; while (buf[q + i] & 0x80) i++; ASSUME(i + 1 <= 10 - (OP ? (k == 0 || OP != 4 ? 0 : 0) : 0)); q += i + 1; } }
 #endif
-  Stream in; memset(&in, 0, sizeof in); in.f1 = buf; in.f2 = buf; in.f3 = BUF;
+  Stream in = {0}; in.f1 = buf; in.f2 = buf; in.f3 = BUF;
   uint64_t rx = 0, ry = 0; int pos = 0; int ovf = 0; int64_t ex = 0, ey = 0;
 #if OP == 0
   rx = R_UINT(&in);
